@@ -38,8 +38,9 @@ class C15(Check):
             'frappy.modulebase.Module (earlyInit/initModule/startModule, poll thread start-up, writeInitParams, '
             'stop/joinPollThread)', 'frappy.lib.multievent.MultiEvent', 'frappy.dynamic.Pinata']
     STUB = ['hardware (instrumented generated classes)', 'clock', 'threading primitives']
-    ASSUMPTIONS = ['an attachment to a missing / wrongly typed module that the user never touches cannot matter and is '
-                   'not required to be reported',
+    ASSUMPTIONS = ['a missing / wrongly typed attachment must be reported before anything is started, whenever (or whether '
+                   'ever) the module would use it; a start-up ending with a configuration error has started, polled and '
+                   'written nothing',
                    'shutdown order is required for every configured attachment between existing modules, whether or '
                    'not it was used before']
     PROBES = ('c15.attachment-edge', 'c15.cyclic', 'c15.missing-target', 'c15.wrong-type', 'c15.pinata', 'c15.shared-io',
@@ -369,8 +370,9 @@ class C15(Check):
         if failing:
             must_fail = f'failing initialisation of {failing}'
         for user, a in edges:
-            if a['kind'] in ('missing', 'wrongtype') and a['phase'] in ('early', 'init', 'start'):
-                must_fail = f'{a["kind"]} attachment {user}.{a["attr"]} -> {a["to"]!r} touched in {a["phase"]}'
+            if a['kind'] in ('missing', 'wrongtype'):
+                # (whatever the phase of its first use: attachments are resolved before anything is started)
+                must_fail = f'{a["kind"]} attachment {user}.{a["attr"]} -> {a["to"]!r} first used in {a["phase"]}'
             if a['kind'] == 'notgiven':
                 must_fail = f'mandatory attachment {user}.{a["attr"]} not configured'
             if a['kind'] == 'cycle':
@@ -381,6 +383,14 @@ class C15(Check):
                                  f'{must_fail}: the node started (errors collected: {ctx["errors"][:3]})'))
             return res
         if ctx['exit'] is not None:
+            # a configuration error is reported *instead of* a half-started node: nothing was started, polled or
+            # written to the hardware before the node gave up
+            begun = [e for e in log if e[2] in ('startModule', 'doPoll', 'write') or (e[2] == 'read' and 'pollThread' in str(e[-1]))]
+            if begun:
+                res.append(Violation('C15.half-started', begun[0][2],
+                                     f'start-up ended with {ctx["exit"]} ({ctx["errors"][:2]}), but before that: '
+                                     f'{[e[2:5] for e in begun[:5]]}'))
+                return res
             # also a start-up which ends with an error report runs no phase of any module twice
             for n in sorted({e[3] for e in log if e[2] in ('earlyInit', 'initModule', 'startModule')}):
                 for k in ('earlyInit', 'initModule', 'startModule'):
